@@ -6,6 +6,10 @@
 (*   FR x (x is bound as the key variable of a forRange over injected      *)
 (*        data: a local defined without an assignment statement)           *)
 (*   H    (hold: block on a gate)            T  (set the call's stop tag)  *)
+(*   WF x a (x is bound from the injected field a - an addressable scalar;  *)
+(*        the value is whatever the field holds at that moment)            *)
+(*   WM x / RM x (x is bound to a fresh object; a METHOD of the object in  *)
+(*        x is called and tells which object it ran on)                    *)
 (*   CW x (a conc block with a slow assignment to local x and a sibling    *)
 (*        that succeeds: after the block x is assigned)                    *)
 (*   CF x (a conc block with a slow assignment to local x and a failing    *)
@@ -29,7 +33,7 @@ NextOp(e) == prog[ex[e].rule][ex[e].pc + 1]
 HasNext(e) == ex[e].pc < Len(prog[ex[e].rule])
 Stuck(e) == /\ ~ex[e].ended
             /\ \/ ex[e].failed
-               \/ /\ HasNext(e) /\ NextOp(e).k = "R"
+               \/ /\ HasNext(e) /\ NextOp(e).k \in {"R", "RM"}
                   /\ NextOp(e).name \notin DOMAIN ex[e].store
 
 LBeginCore(p) ==
@@ -45,10 +49,11 @@ EStartCore(e, r, q) ==
 EOpCore(e, i, val) ==
   /\ e \in DOMAIN ex /\ ~ex[e].ended /\ ~ex[e].failed /\ HasNext(e) /\ i = ex[e].pc + 1
   /\ LET op == NextOp(e) IN
-     CASE op.k \in {"W", "FR", "CW"}
+     CASE op.k \in {"W", "FR", "CW", "WF", "WM"}
                       -> /\ ex' = [ex EXCEPT ![e].pc = i, ![e].store = (op.name :> val) @@ @]
                          /\ UNCHANGED inj
-       [] op.k = "R"  -> /\ op.name \in DOMAIN ex[e].store
+       [] op.k \in {"R", "RM"}
+                      -> /\ op.name \in DOMAIN ex[e].store
                          /\ val = ex[e].store[op.name]
                          /\ ex' = [ex EXCEPT ![e].pc = i]
                          /\ UNCHANGED inj
@@ -108,8 +113,8 @@ LSpec == LInit /\ [][LNext]_lvars
 ReadsOwnWrites ==
   \A j \in DOMAIN lh : lh[j].k = "R" =>
      \E w \in 1..(j-1) :
-        /\ lh[w].k \in {"W", "FR", "CW"} /\ lh[w].e = lh[j].e /\ lh[w].name = lh[j].name /\ lh[w].val = lh[j].val
-        /\ \A m \in (w+1)..(j-1) : ~(lh[m].k \in {"W", "FR", "CW"} /\ lh[m].e = lh[j].e /\ lh[m].name = lh[j].name)
+        /\ lh[w].k \in {"W", "FR", "CW", "WF", "WM"} /\ lh[w].e = lh[j].e /\ lh[w].name = lh[j].name /\ lh[w].val = lh[j].val
+        /\ \A m \in (w+1)..(j-1) : ~(lh[m].k \in {"W", "FR", "CW", "WF", "WM"} /\ lh[m].e = lh[j].e /\ lh[m].name = lh[j].name)
 StartUndefined ==
   \A e \in DOMAIN ex : ex[e].pc = 0 => ex[e].store = <<>>
 SharedInjected ==
